@@ -21,12 +21,12 @@ func init() {
 		Run: runNormaliseBeforeLookup,
 	})
 	register(&Rule{
-		ID: "C03.equivalence-uses-equals", Prop: "C03", Floor: 3, Controls: 0,
+		ID: "C03.equivalence-uses-equals", Prop: "C03", Also: []string{"C01"}, Floor: 3, Controls: 0,
 		Doc: "set membership is decided by Equals being known and true: setRules.Equivalent calls Value.Equals and never uses RawEquals (which equates unknowns); Set.Remove shrinks a bucket only where an Equivalent comparison was made on the way",
 		Run: runEquivalenceUsesEquals,
 	})
 	register(&Rule{
-		ID: "C07.json-names-encoded", Prop: "C07", Floor: 1, Controls: 0,
+		ID: "C07.json-names-encoded", Prop: "C07", Also: []string{"C15", "C16"}, Floor: 1, Controls: 0,
 		Doc: "Type.MarshalJSON produces every attribute or optional name through encoding/json (json.Marshal); it does not format strings with fmt or strconv quoting, whose escapes are not JSON",
 		Run: runJSONNamesEncoded,
 	})
